@@ -28,6 +28,7 @@ RULE = (
 ASSUMPTIONS = [
     "unwind states are compared as canonical text of the evaluator's ProcedureState (return column, personality, LSDA, current and initial row, remember stack)",
     "an insertion exactly at a .cfi_startproc is not judged for coverage (the listing does not say on which side of the directive it goes); this includes a .cfi_startproc that is keyed to the end of the preceding block, a layout the library produces itself",
+    "a patch that carries CFI directives and is inserted exactly at a .cfi_startproc shares the location of that directive, and the evaluator counts every directive at that location among the procedure's initial (CIE) instructions: for such request sets only the current row of each state is compared, not the initial row",
     "x86-64 ELF only; personality/LSDA symbols are not generated here (their travel is C04/C18/C19 material)",
 ]
 TRUSTED = ["harness/emodify.py, harness/irdump.py; the real evaluate_cfi_directives as the meaning of a directive stream (C15)"]
@@ -103,7 +104,8 @@ def decorate(case, rng):
         # a procedure must be a run of adjacent code blocks
         run = [idxs[0]]
         for i in idxs[1:]:
-            if i == run[-1] + 1:
+            # adjacent code blocks, or code blocks of the function separated by data only (a jump table, padding)
+            if all(text[j]["kind"] == "data" for j in range(run[-1] + 1, i)):
                 run.append(i)
             else:
                 break
@@ -182,6 +184,28 @@ def check_case(ctx, case, pending):
     for led in o["edits"]:
         e = by_order[led["order"]]
         led["cfi"] = patch_cfi(e.get("asm", "")) if e["op"] != "delete" else []
+    # a patch with directives of its own inserted exactly at a .cfi_startproc shares that location: the evaluator
+    # takes every directive at the location of .cfi_startproc for the procedure's initial instructions (the CIE's),
+    # so the patch's first directives become part of the "initial" row; only the current row is compared then
+    flat = emodify.flat_of(case)
+    at_start = any(e["op"] != "delete" and ".cfi" in e.get("asm", "") and any(
+        k == e["off"] and any(x[0] == ".cfi_startproc" for x in ds) for k, ds in (flat[e["block"]].get("cfi") or []))
+        for e in case.get("edits", []))
+    if at_start:
+        ctx.count("patch-cfi-at-startproc")
+
+        def drop_initial(rows):
+            out = []
+            for r in rows:
+                r = list(r)
+                if r[3]:
+                    st = json.loads(r[3])
+                    st.pop("initial", None)
+                    r[3] = json.dumps(st, sort_keys=True)
+                out.append(r)
+            return out
+
+        rows_b, rows_a = drop_initial(rows_b), drop_initial(rows_a)
     recs = [r for r in o["rec"].records if "after" in r and not r.get("raised")]
     pending.append((case, o, {"op": "cfi_check", "before": o["before"], "after": o["after"], "edits": o["edits"],
                               "nop": emodify.nop_bytes(case), "rows_before": rows_b, "rows_after": rows_a,
